@@ -89,7 +89,7 @@ def run_property(pid, harnesses, tier, obligations=(), assumptions=(), outside=(
         if not unlisted:
             res['verdict'] = 'KNOWN'; continue
         # get a trace + replay
-        path = os.path.join(outdir, '%s.%s.cex.json' % (re.sub(r'\W', '_', res['harness']), re.sub(r'[^\w=,-]', '_', res['shape'])))
+        path = os.path.join(outdir, '%s_%s.%s.cex.json' % (re.sub(r'\W', '_', res['harness']), core.sha(res['harness'])[:4], re.sub(r'[^\w=,-]', '_', res['shape'])[:120]))
         rec = dict(property=pid, harness=res['harness'], shape=res['shape'], failed=unlisted, inputs=res.get('replay_inputs', {}), confirmed=None)
         key = (res['harness'], res['shape'])
         if key in raw and raw[key][1] is not None:
